@@ -41,6 +41,9 @@ def _marg(kind):
         return lambda k: 2.0 ** (-k)
     if kind == "const":
         return lambda k: 0.25
+    if kind == "np":
+        import numpy as np
+        return lambda k: np.float64(1.0) / np.float64(k + 2)
     if kind == "table":
         tab = {0: Fraction(1, 7), 1: Fraction(3, 7), 2: Fraction(2, 7), 3: Fraction(1, 7), 4: Fraction(1, 14)}
         return lambda k: tab[k]
@@ -84,18 +87,18 @@ def instances(tier, seed):
     # marginal + function
     ts = (1, 2, 3) if tier == "thorough" else (1, 2)
     for t in ts:
-        kinds = ["k+1", "2^-k", "const", "table"] if t < 3 else ["k+1", "table"]
+        kinds = ["k+1", "2^-k", "const", "table", "np"] if t < 3 else ["k+1", "table"]
         bset = BOUNDS1 if t < 3 else [(0, 2), (1, 3), (1, 2)]
         for bounds in itertools.product(bset, repeat=t):
             for fk in itertools.product(kinds, repeat=t):
                 yield {"loader": "marginal", "t": t, "bounds": [list(b) for b in bounds], "fk": list(fk),
                        "mode": "direct"}
                 if t <= 2:
-                    for n in ((1, 2, 3) if tier == "thorough" else (1, 2)):
+                    for n in (1, 2, 3):
                         size = 1
                         for a, b in bounds:
                             size *= (b - a + 1)
-                        if size ** n <= 5000:
+                        if size ** n <= (5000 if tier == "thorough" else (600 if n == 3 else 5000)):
                             yield {"loader": "marginal", "t": t, "bounds": [list(b) for b in bounds],
                                    "fk": list(fk), "mode": "sampling", "n": n}
             for jk in ("sum+1", "prod", "table"):
